@@ -681,18 +681,43 @@ def sym_index_vars(s, out: set) -> None:
 # ======================================================================================
 
 SYM_CAP = 400
+_SIZE_CACHE: Dict[int, Tuple[Any, int]] = {}
 
 
-def sym_size(s, cap: int = SYM_CAP) -> int:
+def sym_size(s, cap: Optional[int] = None) -> int:
+    """Number of nodes of a term (as a tree). Cached per term object: the cache keeps the term alive, so an address is never
+    looked up for another object."""
     if s is None or not isinstance(s, tuple):
         return 1
+    hit = _SIZE_CACHE.get(id(s))
+    if hit is not None and hit[0] is s:
+        return hit[1]
     n = 1
     for a in s[1:]:
         if isinstance(a, tuple):
-            n += sym_size(a, cap)
-            if n > cap:
-                return n
+            n += sym_size(a)
+    if len(_SIZE_CACHE) > 300000:
+        _SIZE_CACHE.clear()
+    _SIZE_CACHE[id(s)] = (s, n)
     return n
+
+
+class sym_cap:
+    """Context manager: a larger term-size cap for runs on small explicit inputs (every value keeps its term)."""
+
+    def __init__(self, cap: int):
+        self.cap = cap
+
+    def __enter__(self):
+        global SYM_CAP
+        self.old = SYM_CAP
+        SYM_CAP = self.cap
+        return self
+
+    def __exit__(self, *a):
+        global SYM_CAP
+        SYM_CAP = self.old
+        return False
 
 
 def mk_sym(op: str, *args):
